@@ -5,6 +5,7 @@
 int vd_tree_main(int argc, char **argv);
 int vd_cmp_main(int argc, char **argv);
 int vd_parse_main(int argc, char **argv);
+int vd_print_main(int argc, char **argv);
 
 int main(int argc, char **argv)
 {
@@ -23,6 +24,7 @@ int main(int argc, char **argv)
     if (!strcmp(mode, "tree")) k = vd_tree_main(argc, argv);
     else if (!strcmp(mode, "cmp")) k = vd_cmp_main(argc, argv);
     else if (!strcmp(mode, "parse")) k = vd_parse_main(argc, argv);
+    else if (!strcmp(mode, "print")) k = vd_print_main(argc, argv);
     else { fprintf(stderr, "vdrv: unknown mode %s\n", mode); k = 2; }
     if (VD.passthrough) fclose(VD.passthrough);
     if (VD.samplef) fclose(VD.samplef);
